@@ -118,6 +118,14 @@ def run_vectors_with_modes(c, calls, label):
     c.validate_many(traces, 'G:' + label)
 
 
+def g_operands(c, make):
+    """every boundary-class operand in every scale 0..18 (TLC grid "operands"); make(x, i) yields the call descriptions"""
+    calls = []
+    for i, x in enumerate(grid(c, 'operands')):
+        calls += make(x, i)
+    run_vectors(c, calls, 'operands')
+
+
 def plan_C01(c):
     c.mc('MC_BigInt')
     c.mc('MC_Refine', cfg='MC_Refine_ok' if c.tier == 'quick' else 'MC_Refine_ok_full')
@@ -195,6 +203,7 @@ def plan_C06(c):
 
 
 def plan_C07(c):
+    g_operands(c, lambda x, i: [{'ev': 'str', 't': 1, 'x': x}])
     v(c, 'c07', 3000, 100000)
 
 
@@ -208,6 +217,8 @@ def plan_C08(c):
 
 def plan_C09(c):
     c.mc('MC_SpecLaws', cfg='MC_SpecLaws' if c.tier != 'quick' else 'MC_SpecLaws_quick')
+    # ratio and digest of every boundary operand in every scale: all representations of a value meet in one digest entry
+    g_operands(c, lambda x, i: [{'ev': 'ratio', 't': 1, 'x': x}, {'ev': 'hash', 't': 1, 'x': x}, {'ev': 'hs', 't': 1, 'op': ['insert', 'contains', 'remove'][i % 3], 'x': x}])
     v(c, 'c09', 5000, 150000)
 
 
@@ -225,6 +236,7 @@ def plan_C11(c):
 
 def plan_C12(c):
     c.mc('MC_BigInt')
+    g_operands(c, lambda x, i: [{'ev': 'tofloat', 't': 1, 'x': x}])
     v(c, 'c12', 2500, 80000)
 
 
@@ -240,12 +252,33 @@ def plan_C13(c):
     v(c, 'c13', 3000, 100000)
 
 
+INT_TYPES10 = ['u8', 'i8', 'u16', 'i16', 'u32', 'i32', 'u64', 'i64', 'i128', 'u128']
+
+
 def plan_C14(c):
+    # d * 10^k for every small d and every k, written with f <= min(k, 18) fractional digits (integral), and the
+    # same coefficient + 1 (non-integral when f > 0); the target type rotates over all ten types
+    MAXC = 2**127 - 1
+    calls = []
+    for i, (d, k, f, sg) in enumerate(grid(c, 'ints')):
+        coef = d * 10**k
+        if coef > MAXC:
+            continue
+        ty = INT_TYPES10[(i + i // 10) % 10]
+        calls.append({'ev': 'toint', 't': 1, 'ty': ty, 'x': jdec((sg * coef, f))})
+        if i % 3 == 0 and coef + 1 <= MAXC:
+            calls.append({'ev': 'toint', 't': 1, 'ty': ty, 'x': jdec((sg * (coef + 1), f))})
+    run_vectors(c, calls, 'ints')
+    g_operands(c, lambda x, i: [{'ev': 'toint', 't': 1, 'ty': INT_TYPES10[i % 10], 'x': x}])
     v(c, 'c14', 6000, 200000)
 
 
 def plan_C15(c):
     c.mc('MC_SpecLaws', cfg='MC_SpecLaws' if c.tier != 'quick' else 'MC_SpecLaws_quick')
+    c.mc('MC_Refine', cfg='MC_Refine_tight')      # non-vacuity of the oracle: neighbouring coefficients and wrong failure signals are rejected
+    uops = ['floor', 'ceil', 'trunc', 'fract', 'abs', 'nt_abs', 'neg', 'neg_ref', 'signum']
+    oops = ['magnitude', 'eq_zero', 'eq_one', 'is_negative', 'is_positive', 'is_zero', 'is_one', 'nt_is_negative', 'nt_is_positive']
+    g_operands(c, lambda x, i: [{'ev': 'un', 't': 1, 'op': op, 'x': x, 'n': 0} for op in uops] + [{'ev': 'obs', 't': 1, 'op': op, 'x': x} for op in oops])
     v(c, 'c15', 6000, 200000)
 
 
